@@ -1,0 +1,10 @@
+//go:build verif
+
+package roprometheus
+
+// VerifSetLicenseBypass is only compiled with the `verif` build tag. It lets the
+// verification harness switch the enterprise licence check on and off: the real
+// check needs a key signed by the vendor.
+func VerifSetLicenseBypass(enabled bool) {
+	bypassLicenseCheck = enabled
+}
